@@ -579,6 +579,14 @@ func safeErr(f func() error) (err error) {
 func detOutputs(seed uint64, count int) []string {
 	r := newRng(seed)
 	var out []string
+	// reading the same CMap bytes twice gives the same result even if the file writes into the procedure set
+	{
+		leak := "/CIDInit /ProcSet findresource begin\n12 dict begin begincmap\n/CMapName /Leak def\n" +
+			"/CMapType /CIDInit /ProcSet findresource /leak__ known { 1 } { 0 } ifelse def\n" +
+			"/CIDInit /ProcSet findresource /leak__ true put\n/CIDInit /ProcSet findresource /endbfchar { stop } put\n" +
+			"1 begincodespacerange <00> <ff> endcodespacerange\nendcmap CMapName currentdict /CMap defineresource pop end end\n"
+		out = append(out, fmt.Sprintf("cmap-leak:%x", sha256.Sum256([]byte(runInput("cmap", strings.NewReader(leak))))))
+	}
 	// the very first look-ups of a process (lazily loaded tables) answer like every later one
 	out = append(out, fmt.Sprintf("names-first:%v %v %v %v", names.ToUnicode("dalethatafpatah", false), names.ToUnicode("a7_a8", true), names.FromUnicode(0x05D3), names.ToUnicode("Aacute", false)))
 	for i := 0; i < count; i++ {
